@@ -604,7 +604,11 @@ func (group *Group) writev2RtmpSubSessions(bs net.Buffers) {
 		if session.IsFresh || session.ShouldWaitVideoKeyFrame {
 			continue
 		}
-		_ = session.Writev(bs)
+		// net.Buffers.WriteTo consumes the slice it is given (it nils and re-slices its elements),
+		// so every session needs its own copy of the buffer list
+		tmp := make(net.Buffers, len(bs))
+		copy(tmp, bs)
+		_ = session.Writev(tmp)
 	}
 }
 
